@@ -936,28 +936,31 @@ def rec_scenario(s, path, plans, write_interval, keep_open, line_level):
     for fn in ("run", "record", "set_attribute"):
         co = getattr(cls, fn).__code__
         code_names[co] = fn
-    try:
-        import inspect
-        lines, start = inspect.getsourcelines(cls.run)
-        for k, ln in enumerate(lines):
-            src_lines[start + k] = ln.strip()
-    except OSError:
-        pass
-    # the two marked lines of run() are found by SHAPE, not by text (local variables may be renamed):
+    # The two marked lines of the writer loop are found by SHAPE, not by text or by the name of the function they live
+    # in (local variables may be renamed, the loop may be moved into a helper of the class):
     #   quit: `<local> = self._shutdown_requested`;  wend: `<X>.clear()` where X is the local swapped with self._recordings
-    marks = {"quit": [], "wend": []}
-    try:
-        import ast
-        import textwrap
-        ftree = ast.parse(textwrap.dedent("".join(lines))).body[0]
-        off = start - 1
+    import ast
+    import inspect
+    import textwrap
+    marks = {"quit": set(), "wend": set()}       # (code object, line number)
 
-        def is_self_attr(e, name):
-            return isinstance(e, ast.Attribute) and e.attr == name and isinstance(e.value, ast.Name) and e.value.id == "self"
-        swapped = set()
+    def is_self_attr(e, name):
+        return isinstance(e, ast.Attribute) and e.attr == name and isinstance(e.value, ast.Name) and e.value.id == "self"
+    for fname, fobj in list(vars(cls).items()):
+        fobj = getattr(fobj, "__func__", fobj)
+        co = getattr(fobj, "__code__", None)
+        if co is None:
+            continue
+        try:
+            lines, start = inspect.getsourcelines(fobj)
+            ftree = ast.parse(textwrap.dedent("".join(lines))).body[0]
+        except (OSError, TypeError, SyntaxError, IndexError):
+            continue
+        off = start - 1
+        swapped, q, w = set(), [], []
         for n in ast.walk(ftree):
             if isinstance(n, ast.Assign) and is_self_attr(n.value, "_shutdown_requested"):
-                marks["quit"].append(n.lineno + off)
+                q.append(n.lineno + off)
             if isinstance(n, ast.Assign) and isinstance(n.value, ast.Tuple) and any(is_self_attr(e, "_recordings") for e in n.value.elts):
                 for t in n.targets:
                     for e in (t.elts if isinstance(t, ast.Tuple) else [t]):
@@ -967,9 +970,11 @@ def rec_scenario(s, path, plans, write_interval, keep_open, line_level):
             if isinstance(n, ast.Expr) and isinstance(n.value, ast.Call) and isinstance(n.value.func, ast.Attribute) \
                     and n.value.func.attr == "clear" and isinstance(n.value.func.value, ast.Name) \
                     and n.value.func.value.id in swapped and not n.value.args:
-                marks["wend"].append(n.lineno + off)
-    except (NameError, SyntaxError, IndexError):
-        pass
+                w.append(n.lineno + off)
+        if swapped and q and w:
+            code_names.setdefault(co, "run")          # the function holding the writer loop (run itself, or a helper)
+            marks["quit"].update((co, ln) for ln in q)
+            marks["wend"].update((co, ln) for ln in w)
     obs["marks_ok"] = bool(marks["quit"]) and bool(marks["wend"])
 
     def tracer(frame, event, arg):
@@ -982,9 +987,9 @@ def rec_scenario(s, path, plans, write_interval, keep_open, line_level):
                 if line_level and s.recording:
                     s.yield_point(("line", fn, frame.f_lineno))
                 if fn == "run":
-                    if frame.f_lineno in marks["quit"]:
+                    if (frame.f_code, frame.f_lineno) in marks["quit"]:
                         s.log("swap", bool(frame.f_locals["self"]._shutdown_requested))
-                    elif frame.f_lineno in marks["wend"]:
+                    elif (frame.f_code, frame.f_lineno) in marks["wend"]:
                         s.log("write-end")
             return local
         return local
